@@ -496,3 +496,32 @@ class Download(Contract):
                    [e[0] for e in s.ev] == ["open", "fp.write", "fp.close"])
 
     ensures = {"open-args_and_exact-write": lambda s: Download.ok(s)}
+
+
+@contract
+class WsWriteProgress(Contract):
+    """every write() on an unfinished stream makes progress: it takes at least one byte or raises — the file-like
+    interface (io.RawIOBase / BufferedWriter) re-offers what was not taken and would otherwise spin or silently drop data"""
+    target = "canopen.sdo.client:WritableStream.write"
+    id = "WsWriteProgress"
+    props = ("C01",)
+    cases = {"expedited": True, "segmented": False}
+    exits = ()
+
+    def setup(self, w, case):
+        ws = mk_ws(w, case)
+        w.assume(Not(w.pre["done"]))
+        if case:
+            n = w.choose(w.int("blen", 1, 4), range(1, 5))
+            w.assume(n <= w.pre["size"])
+            b = w.bytes("b", n)
+        else:
+            b = w.lbytes("b", 1, 1 << 20)
+        w.pre.update(b=b, blen=(n if case else None))
+        return Call(("method", ws, "write"), [b])
+
+    ensures = {"takes-a-byte-or-raises": lambda s: (not s.returned) or (S.is_int(s.ret) and compare(">=", s.ret, 1))}
+    regions = {
+        # known finding: an expedited-size download (declared size 1..4, not forced to segmented) written in pieces
+        "expedited-in-pieces": lambda s: (s.pre["blen"] is not None) and (s.pre["blen"] < s.pre["size"]),
+    }
